@@ -54,7 +54,7 @@ CLAIMED["C05"] = (
 CLAIMED["C06"] = (
     "MIR must-pass-through-sanitiser analysis for the in-band occupancy marker (R-TAINT-S, sentinels and sanitiser inferred "
     "structurally, incl. enumerators) + probe-past-tombstone path rule (R-PROBE) + sibling agreement of hash-to-slot reduction "
-    "(R-SIBLING.index) + parallel-vector reshape agreement incl. whole-element replacement (R-PARALLEL) + clear() completeness over collection fields (R-CLEAR) + "
+    "(R-SIBLING.index) + parallel-vector reshape agreement incl. whole-element replacement (R-PARALLEL), per-iteration push when the companion vector is rebuilt (R-PARALLEL.build), deleted-count increments covered by a deleted-marker store (R-MARKCOUNT) + clear() completeness over collection fields (R-CLEAR) + "
     "variant-routing coverage (R-VARIANT) + movemask restricted to the filled lanes of a zero-padded scratch array (R-PADMASK)",
     "static rules over MIR: a hash from Hasher::finish cannot reach a store into / comparison with HashEntry.hash without "
     "passing a function that tests every sentinel; every map operation x HashMapStorage variant reaches a back end that "
@@ -162,7 +162,7 @@ CLAIMED["C17"] = (
     "MIR must-pass-through / who-may-call analysis of the eviction path (R-ORDER/R-FLOW), lock-order graph with read/write modes "
     "(R-LOCKORDER), recency refresh on every entry access (R-TOUCH), index-lock coverage of list operations (R-LOCKCOV.lru), clear() "
     "completeness (R-CLEAR), no eviction before an in-place update (R-ORDER.evict), must-pass-through refresh of CacheBuffer's cached "
-    "(pointer, length) view after every reshaping of its Vec (R-CACHEDVIEW) and routing purity of the shard selector",
+    "(pointer, length) view after every reshaping of its Vec (R-CACHEDVIEW), who-may-call purity of the LruMap observers (R-PURE: contains_key/len/is_empty/capacity reach no recency-list mutation) and routing purity of the shard selector",
     "static rules over MIR: evict_lru invokes the callback exactly once on the entry it unlinks and only when the map is full; the "
     "locks of LruMap are acquired in one order; the shard for a key depends on the key and on no thread id / counter / clock",
     "structural clauses of C17; LRU order values, the capacity bound, page-cache byte equality and staleness after invalidation are "
